@@ -135,3 +135,26 @@ def gen_topk(items):
                 raise Fail(f'{path}: {what}: shape not found')
         return D('COMPARATOR_SHAPE', 1, 'order.rs: Natural / Reverse / ReverseNoneIsLower / NaturalNoneIsHigher on Option, From<Order>, ComparatorEnum dispatch, pair = head.then_with(tail)')
     items.append(comparator_shape)
+    def topn_computer_shape():
+        # TopNComputer as Model/TopN.lean mirrors it (push, append_doc, truncate_top_n, into_sorted_vec, into_vec, compare_for_top_k)
+        path = 'src/collector/top_score_collector.rs'
+        flat = re.sub(r'\s+', '', strip_comments(src(path)))
+        want = {
+            'compare_for_top_k = comparator reversed, then ascending doc':
+                'c.compare(&lhs.sort_key,&rhs.sort_key).reverse().then_with(||lhs.doc.cmp(&rhs.doc))',
+            'push: strict threshold (ignored unless Greater), then append_doc':
+                'ifletSome(last_median)=&self.threshold{ifself.comparator.compare(&sort_key,last_median)!=Ordering::Greater{return;}}self.append_doc(doc,sort_key);',
+            'append_doc: truncate at capacity, the median becomes the threshold':
+                'ifself.buffer.len()==self.buffer.capacity(){letmedian=self.truncate_top_n();self.threshold=Some(median);}',
+            'truncate_top_n: select_nth_unstable_by(top_n, compare_for_top_k), median key, truncate(top_n)':
+                'let(_,median_el,_)=self.buffer.select_nth_unstable_by(self.top_n,|lhs,rhs|{compare_for_top_k(&self.comparator,lhs,rhs)});letmedian_score=median_el.sort_key.clone();self.buffer.truncate(self.top_n);median_score',
+            'into_sorted_vec: truncate if above top_n, sort_unstable_by(compare_for_top_k)':
+                'ifself.buffer.len()>self.top_n{self.truncate_top_n();}self.buffer.sort_unstable_by(|lhs,rhs|compare_for_top_k(&self.comparator,lhs,rhs));self.buffer',
+            'into_vec: truncate if above top_n':
+                'ifself.buffer.len()>self.top_n{self.truncate_top_n();}self.buffer}',
+        }
+        for what, frag in want.items():
+            if frag not in flat:
+                raise Fail(f'{path}: {what}: shape not found (Model/TopN.lean mirrors it)')
+        return D('TOPN_COMPUTER_SHAPE', 1, 'TopNComputer: compare_for_top_k, push (strict threshold), append_doc, truncate_top_n, into_sorted_vec, into_vec')
+    items.append(topn_computer_shape)
